@@ -3,6 +3,7 @@ package p_themes
 import (
 	"fmt"
 	"runtime/debug"
+	"sort"
 	"strings"
 	"testing"
 	"time"
@@ -106,97 +107,123 @@ func plainLabelled(d *d2target.Diagram) []d2target.Shape {
 	return out
 }
 
-// c32Context classifies a plain shape whose label was not found: it decides the signature.
-// "overlap" (the layout itself puts another unrelated shape over the box, e.g. two objects
-// with the same constant near) is not asserted.
-func c32Context(d *d2target.Diagram, s d2target.Shape) string {
-	if !printableASCII(s.Label) {
+// c32Classify says why the label lbl (carried by the plain shapes ss) is missing from the
+// output; it decides the signature. The culprit is found by experiment: the same diagram is
+// rendered again without connection labels, then without connections.
+//
+//	overlap                         the LAYOUT puts an unrelated shape over the box (not asserted)
+//	non-ascii-label                 multi-byte characters
+//	overwritten-by-connection-label the label is back when connection/arrowhead labels are blanked
+//	overwritten-by-route            the label is back when the connections are removed
+//	label-wider-than-box            some label has more characters than its box has columns (the renderer widens
+//	                                the box or lets the label overflow) and the label is back when the other
+//	                                shapes' labels are blanked, or it is the lost label itself
+//	overwritten-by-other-shape-label the label is back when the other shapes' labels are blanked (none too wide)
+//	in-sequence / multiple / 3d / plain
+func c32Classify(d *d2target.Diagram, lbl string, ss []d2target.Shape, need int, cs charset.Type, scale float64) string {
+	if !printableASCII(lbl) {
 		return "non-ascii-label"
 	}
-	x0, y0, x1, y1 := float64(s.Pos.X), float64(s.Pos.Y), float64(s.Pos.X+s.Width), float64(s.Pos.Y+s.Height)
-	for _, o := range d.Shapes {
-		if o.ID == s.ID || strings.HasPrefix(s.ID, o.ID+".") || strings.HasPrefix(o.ID, s.ID+".") {
-			continue
-		}
-		ox0, oy0, ox1, oy1 := float64(o.Pos.X), float64(o.Pos.Y), float64(o.Pos.X+o.Width), float64(o.Pos.Y+o.Height)
-		if ox0 < x1-1 && x0 < ox1-1 && oy0 < y1-1 && y0 < oy1-1 {
-			return "overlap"
-		}
-	}
-	// the renderer widens a box whose label has more characters than the box has columns
-	if len(s.Label)+2 > int(float64(s.Width)/9.75+0.5) {
-		return "label-wider-than-box"
-	}
-	for _, cn := range d.Connections {
-		for i := 0; i+1 < len(cn.Route); i++ {
-			if segHitsBox(cn.Route[i].X, cn.Route[i].Y, cn.Route[i+1].X, cn.Route[i+1].Y, x0+2, y0+2, x1-2, y1-2) {
-				return "route-through-shape"
+	for _, s := range ss {
+		x0, y0, x1, y1 := float64(s.Pos.X), float64(s.Pos.Y), float64(s.Pos.X+s.Width), float64(s.Pos.Y+s.Height)
+		for _, o := range d.Shapes {
+			if o.ID == s.ID || strings.HasPrefix(s.ID, o.ID+".") || strings.HasPrefix(o.ID, s.ID+".") {
+				continue
+			}
+			ox0, oy0, ox1, oy1 := float64(o.Pos.X), float64(o.Pos.Y), float64(o.Pos.X+o.Width), float64(o.Pos.Y+o.Height)
+			if ox0 < x1-1 && x0 < ox1-1 && oy0 < y1-1 && y0 < oy1-1 {
+				return "overlap"
 			}
 		}
 	}
-	// the renderer places connection labels itself (centre of the longest segment), not where
-	// the layout reserved room for them
-	for _, cn := range d.Connections {
-		if cn.Label != "" && (cn.Src == s.ID || cn.Dst == s.ID) {
-			return "endpoint-of-labelled-connection"
+	found := func(d2 *d2target.Diagram) bool {
+		out, err, psig, _ := renderASCII(d2, cs, scale)
+		return psig == "" && err == nil && strings.Count(string(out), lbl) >= need
+	}
+	noLabels := *d
+	noLabels.Connections = append([]d2target.Connection(nil), d.Connections...)
+	for i := range noLabels.Connections {
+		noLabels.Connections[i].Label = ""
+		noLabels.Connections[i].SrcLabel = nil
+		noLabels.Connections[i].DstLabel = nil
+	}
+	if found(&noLabels) {
+		return "overwritten-by-connection-label"
+	}
+	noConns := *d
+	noConns.Connections = nil
+	if found(&noConns) {
+		return "overwritten-by-route"
+	}
+	// another shape's label: a label with more characters than its box has columns makes the
+	// renderer widen that box (rectangles) or simply overflows it (package, document, ...)
+	wider := func(o d2target.Shape) bool {
+		for _, line := range strings.Split(o.Label, "\n") {
+			if len(line)+2 > int(float64(o.Width)/9.75+0.5) {
+				return true
+			}
 		}
+		return false
+	}
+	mine := map[string]bool{}
+	for _, s := range ss {
+		mine[s.ID] = true
+	}
+	noOthers := *d
+	noOthers.Shapes = append([]d2target.Shape(nil), d.Shapes...)
+	otherWider := false
+	for i := range noOthers.Shapes {
+		if !mine[noOthers.Shapes[i].ID] {
+			if noOthers.Shapes[i].Label != "" && wider(noOthers.Shapes[i]) {
+				otherWider = true
+			}
+			noOthers.Shapes[i].Label = ""
+		}
+	}
+	if found(&noOthers) {
+		if otherWider {
+			return "label-wider-than-box"
+		}
+		return "overwritten-by-other-shape-label"
 	}
 	var tags []string
-	parent := s.ID
-	for {
-		i := strings.LastIndex(parent, ".")
-		if i < 0 {
-			break
-		}
-		parent = parent[:i]
-		for _, o := range d.Shapes {
-			if o.ID == parent && o.Type == d2target.ShapeSequenceDiagram {
-				tags = append(tags, "in-sequence")
+	tag := func(t string) {
+		for _, x := range tags {
+			if x == t {
+				return
 			}
 		}
+		tags = append(tags, t)
 	}
-	if s.Multiple {
-		tags = append(tags, "multiple")
-	}
-	if s.ThreeDee {
-		tags = append(tags, "3d")
+	for _, s := range ss {
+		if wider(s) {
+			return "label-wider-than-box"
+		}
+		parent := s.ID
+		for {
+			i := strings.LastIndex(parent, ".")
+			if i < 0 {
+				break
+			}
+			parent = parent[:i]
+			for _, o := range d.Shapes {
+				if o.ID == parent && o.Type == d2target.ShapeSequenceDiagram {
+					tag("in-sequence")
+				}
+			}
+		}
+		if s.Multiple {
+			tag("multiple")
+		}
+		if s.ThreeDee {
+			tag("3d")
+		}
 	}
 	if len(tags) == 0 {
 		return "plain"
 	}
+	sort.Strings(tags)
 	return strings.Join(tags, "+")
-}
-
-// segHitsBox: does the segment (ax,ay)-(bx,by) meet the closed box? (Liang-Barsky)
-func segHitsBox(ax, ay, bx, by, x0, y0, x1, y1 float64) bool {
-	if x1 < x0 || y1 < y0 {
-		return false
-	}
-	t0, t1 := 0.0, 1.0
-	dx, dy := bx-ax, by-ay
-	clip := func(p, q float64) bool {
-		if p == 0 {
-			return q >= 0
-		}
-		r := q / p
-		if p < 0 {
-			if r > t1 {
-				return false
-			}
-			if r > t0 {
-				t0 = r
-			}
-		} else {
-			if r < t0 {
-				return false
-			}
-			if r < t1 {
-				t1 = r
-			}
-		}
-		return true
-	}
-	return clip(-dx, ax-x0) && clip(dx, x1-ax) && clip(-dy, ay-y0) && clip(dy, y1-ay)
 }
 
 func checkC32(h *hx.H, c c32Case) {
@@ -292,7 +319,13 @@ func checkC32(h *hx.H, c c32Case) {
 					h.Label("plain-label:non-ascii")
 				}
 				if n := strings.Count(text, lbl); n < mult[lbl] {
-					kind := c32Context(d, s)
+					var same []d2target.Shape
+					for _, o := range plain {
+						if strings.TrimSpace(o.Label) == lbl {
+							same = append(same, o)
+						}
+					}
+					kind := c32Classify(d, lbl, same, mult[lbl], cs, sc)
 					if kind == "overlap" {
 						h.Gray()
 						h.Label("gray:label-lost-under-overlapping-shape")
